@@ -10,6 +10,10 @@ drew — canonical (bind, attr) keys, independent of the header spelling and of 
 gives the attribute map every row's bind must carry; the implementation's binds, keyed by nodeset,
 must be exactly these maps: no attribute dropped, changed, duplicated or attached to another row,
 no bind for a row without logic whose type prescribes none, no two binds for one node.
+Phase 8: `binds.model_refs` (`Pyxv.Binds.formBindsR`: the same pipeline with the reference substitution of C03's
+`Pyxv.Refs.insertXpathsText` from the row's own node — `${name}` to any element, relative paths included; theorems
+Pyxv/Proofs/C05Refs.lean) must equal `binds.model` wherever that answers and is compared with the implementation on
+the sheets only it answers; `binds.spec_refs` (`Spec.expectedR`) is the oracle's expected map on those sheets.
 """
 
 from __future__ import annotations
